@@ -30,6 +30,9 @@ Verdicts(e) ==
   \cup (IF e.failed_path # "" => e.failed_path \notin ToSet(e.res.repaired) THEN {} ELSE {"C18.failed_write_not_reported_repaired"})
   \cup (IF \A p \in ToSet(e.changed) : p = e.failed_path \/ p \in ToSet(e.completed_writes) THEN {} ELSE {"C18.only_the_written_path_changes"})
   \cup (IF e.completed_ok THEN {} ELSE {"C18.completed_writes_are_exact"})
+  \* every file Repair wrote is listed in its result, also when a later step failed (C02)
+  \cup (IF (e.op = "repair" /\ ~e.pair) => \A p \in ToSet(e.completed_writes) : p \in ToSet(e.res.repaired)
+        THEN {} ELSE {"C02.written_files_are_listed"})
   \cup (IF e.rerun.expected_ok => (~e.rerun.err /\ e.rerun.same_as_fault_free) THEN {} ELSE {"C18.clean_rerun_as_if_no_fault"})
   \cup (IF ~e.panicked THEN {} ELSE {"C13.no_panic"})
 
